@@ -118,6 +118,18 @@ func c13(args []string) error {
 		{"Feature(Circle).Contains(Point)", func(c *geojson.Circle, p geometry.Point) bool {
 			return geojson.NewFeature(c, "").Contains(geojson.NewPoint(p))
 		}},
+		{"Circle.Contains(Feature(Feature(Point)))", func(c *geojson.Circle, p geometry.Point) bool {
+			return c.Contains(geojson.NewFeature(geojson.NewFeature(geojson.NewPoint(p), ""), `{"id":2}`))
+		}},
+		{"Circle.Intersects(Feature(Feature(SimplePoint)))", func(c *geojson.Circle, p geometry.Point) bool {
+			return c.Intersects(geojson.NewFeature(geojson.NewFeature(geojson.NewSimplePoint(p), ""), ""))
+		}},
+		{"Feature(Point).Within(Circle)", func(c *geojson.Circle, p geometry.Point) bool {
+			return geojson.NewFeature(geojson.NewPoint(p), "").Within(c)
+		}},
+		{"Feature(Feature(Circle)).Intersects(Feature(Point))", func(c *geojson.Circle, p geometry.Point) bool {
+			return geojson.NewFeature(geojson.NewFeature(c, ""), "").Intersects(geojson.NewFeature(geojson.NewPoint(p), ""))
+		}},
 	}
 	meters := func(m, q int) float64 { return (float64(m) + float64(q)/8) * stepU }
 	for ri, ring := range rings {
